@@ -70,7 +70,7 @@ def parse_output(out):
 class _HeapBudget:
     """TLC processes started in parallel by one check (slices of a long recording) share the machine's memory: the sum of
     their maximum heaps stays below BUDGET_GB, later ones wait."""
-    BUDGET_GB = 36
+    BUDGET_GB = 24
 
     def __init__(self):
         import threading
